@@ -56,5 +56,11 @@ Theorem C20_pairs_are_unordered_pairs_of_distinct_positions :
 Proof. exact pairs_are_ordered_pairs. Qed.
 Print Assumptions C20_pairs_are_unordered_pairs_of_distinct_positions.
 
+(* ... and every two keys at distinct positions are listed: exactly the unordered pairs *)
+Theorem C20_pairs_are_exactly_the_pairs_of_distinct_positions :
+  forall keys x y, In (x, y) (pairs keys) <-> exists a b c, keys = a ++ x :: b ++ y :: c.
+Proof. exact pairs_exactly. Qed.
+Print Assumptions C20_pairs_are_exactly_the_pairs_of_distinct_positions.
+
 Example C20_example_format : fmt2 5%Z 3 = "0.62"%string /\ fmt2 (-1)%Z 10 = "-0.00"%string /\ fmt2 1234%Z 2 = "308.50"%string.
 Proof. repeat split; reflexivity. Qed.
